@@ -54,7 +54,7 @@ META = {
  "C15": ("property-based testing of reverse move generation against forward play in refchess (completeness + soundness)",
          "(P, m, Q) triples from generated games: un-move lists must contain m with the restoring info, every listed un-move must lead back to Q",
          "refchess, fixupEPSquare normalisation as Game uses it"),
- "C16": ("property-based testing: reachable positions (generated games) vs. illegality verdicts; admissibility of the distance bound; replay of proof games",
+ "C16": ("property-based testing: reachable positions (generated games) vs. illegality verdicts; admissibility of the distance bound (rapidcheck games + coverage-guided libFuzzer games); replay of proof games",
          "final positions of generated games must never be called illegal; lower bound <= remaining plies for every prefix; proofs replayed in refchess",
          "refchess; node budgets make 'unknown' acceptable"),
  "C17": ("round-trip property testing (rapidcheck) + coverage-guided fuzzing (libFuzzer) with semantic oracles inside the targets",
